@@ -41,7 +41,7 @@ PointWithin(g, p, ll) == ll = <<>> \/ \A j \in 1..Len(p) : ll[j] = -1 \/ PLevel(
 
 PointsOfTensors(g, T) == IF g.fam = "sequence" THEN T ELSE NestedPoints(g.fam, g.rule, g.order, T, g.dims)
 \* delta points of one tensor (points whose level vector is exactly t)
-DeltaPoints(g, t) == {p \in PointsOfTensors(g, {q \in Cube(g.dims, MaxEntry({t})) : LeqAll(q, t)}) : LVec(g, p) = t}
+DeltaPoints(g, t) == IF g.fam = "sequence" THEN {t} ELSE DeltaOf(g.fam, g.rule, g.order, t)
 
 Restrict(f, S) == [x \in S |-> f[x]]
 ConstFn(S, v) == [x \in S |-> v]
@@ -183,8 +183,7 @@ HParentsDir(g, p, j) == {Repl(p, j, k) : k \in HParents(g.fam, g.rule, g.order, 
 KidWithin(g, q, j, ll) == ll = <<>> \/ ll[j] = -1 \/ PLevel(g, q, j) <= ll[j]
 
 ClassicNeed(g, F, ll) ==
-    {q \in UNION {UNION {HKidsDir(g, p, j) : j \in 1..g.dims} : p \in F} :
-        q \notin g.pts /\ \E p \in F, j \in 1..g.dims : q \in HKidsDir(g, p, j) /\ KidWithin(g, q, j, ll)}
+    UNION {UNION {{q \in HKidsDir(g, p, j) : q \notin g.pts /\ KidWithin(g, q, j, ll)} : j \in 1..g.dims} : p \in F}
 
 \* parents-first: a flagged (point, direction) adds its missing parents if there are any, otherwise its kids
 ParentsFirstNeed(g, F, ll) ==
@@ -246,14 +245,16 @@ Finish(g) == IF IsEmpty(g) THEN Ok(g) ELSE Ok([g EXCEPT !.con = FALSE, !.init = 
 \* largest subset of candidates connected to current through parent / kid relations, roots = level-zero points
 IsLevelZero(g, p) == \A j \in 1..g.dims : PLevel(g, p, j) = 0
 Relatives(g, p) == UNION {HKidsDir(g, p, j) \cup HParentsDir(g, p, j) : j \in 1..g.dims}
-RECURSIVE ConnGrow(_, _, _)
-ConnGrow(g, total, C) ==
-    LET add == {q \in C \ total : \E p \in total : q \in Relatives(g, p)}
-    IN IF add = {} THEN total ELSE ConnGrow(g, total \cup add, C)
+\* (for wavelets the relation is directional: the points of level 1 name the whole level-0 block as parents, while a
+\* level-0 point names only its own kids; a candidate joins when a point already in the graph names it)
+RECURSIVE ConnGrow(_, _, _, _)
+ConnGrow(g, total, frontier, C) ==
+    LET add == (UNION {Relatives(g, p) : p \in frontier}) \cap (C \ total)
+    IN IF add = {} THEN total ELSE ConnGrow(g, total \cup add, add, C)
 LargestConnected(g, current, C) ==
     LET roots == {p \in C \ current : IsLevelZero(g, p)}
         start == current \cup roots
-    IN IF start = {} THEN {} ELSE ConnGrow(g, start, C) \ current
+    IN IF start = {} THEN {} ELSE ConnGrow(g, start, start, C) \ current
 
 \* the samples delivered so far that are admissible join the grid, the rest stays parked (C09)
 Promote(g, D) ==
